@@ -19,4 +19,7 @@ Definition run (op : Z) (arg : V) : V :=
   if op =? 33 then run_accessors arg else
   if op =? 34 then run_he_encj arg else
   if op =? 35 then run_he_dec arg else
+  if op =? 36 then run_container_acc arg else
+  if op =? 37 then run_compactb arg else
+  if op =? 38 then run_fs arg else
   fail EOther.
